@@ -472,6 +472,26 @@ func driveAlloc(s *shardSet, rng *rand.Rand, thorough bool) ([]string, map[strin
 			}
 		}
 	}
+	// an allocation made right after another buffer outgrew its storage (its old array may be garbage but views of
+	// it are alive): the fresh buffer must be zero and must not alias the old view
+	for i, ty := range types {
+		c := 1 + i%4
+		k := 2 + rng.Intn(5)
+		w := s.Next()
+		w.Reset()
+		x := w.filledRoot(ty, c, k)
+		w.Slice(x, 0, k) // a view of the storage X is about to leave
+		old := len(w.Views) - 1
+		src := w.filledRoot(ty, c, 2)
+		w.Append(x, src) // X moves to new storage
+		for rep := 0; rep < 3; rep++ {
+			k2 := 1 + rng.Intn(k)
+			w.Alloc(ty, c, k2, k2)
+			n := len(w.Views) - 1
+			w.Write(n, KindOf(ty), w.stamps(c*k2))
+			w.SetSample(old, rng.Intn(w.Views[old].Len()), w.NextStamp())
+		}
+	}
 	return types, nil
 }
 
